@@ -20,7 +20,11 @@ fn dens_view(kind: &str, m: usize, items: &[u64], entry: usize) -> Vec<u64> {
             go!($ty, $f, FnvHasher, bh)
         }};
         ($ty:ident, $f:ty, $h:ty, $bh:expr) => {{
-            let mut s = $ty::<$f, u64, $h>::new(m, $bh);
+            go!($ty, $f, $h, $bh, u64, items)
+        }};
+        ($ty:ident, $f:ty, $h:ty, $bh:expr, $t:ty, $items:expr) => {{
+            let items: &[$t] = $items;
+            let mut s = $ty::<$f, $t, $h>::new(m, $bh);
             // the two sets of a trial go through different entry points: one slice call / item-wise calls + end_sketch
             if entry % 2 == 0 {
                 s.sketch_slice(items).unwrap();
@@ -36,6 +40,18 @@ fn dens_view(kind: &str, m: usize, items: &[u64], entry: usize) -> Vec<u64> {
                 _ => s.get_hsketch().iter().map(|x| (*x as f64).to_bits()).collect(),
             }
         }};
+    }
+    if p.len() > 4 && p[4] == "no32" {
+        // 4-byte items behind the crate's identity hasher (the other arm of its `write`)
+        let nb = BuildHasherDefault::<NoHash>::default();
+        let narrow: Vec<u32> = items.iter().map(|x| *x as u32).collect();
+        return match (p[1], p[2]) {
+            ("opt", "f64") => go!(OptDensMinHash, f64, NoHash, nb, u32, &narrow),
+            ("opt", "f32") => go!(OptDensMinHash, f32, NoHash, nb, u32, &narrow),
+            ("rev", "f64") => go!(RevOptDensMinHash, f64, NoHash, nb, u32, &narrow),
+            ("rev", "f32") => go!(RevOptDensMinHash, f32, NoHash, nb, u32, &narrow),
+            _ => tool_error("unknown dens kind"),
+        };
     }
     if p.len() > 4 && p[4] == "no" {
         let nb = BuildHasherDefault::<NoHash>::default();
@@ -71,7 +87,7 @@ fn sketch_bits(kind: &str, m: usize, items: &[Item], entry: usize) -> Vec<u64> {
 
 /// both sets through ONE sketcher object: sketch A, read, reinit/reset, sketch B, read (kinds that offer reinit/reset)
 fn sketch_bits_reuse(kind: &str, m: usize, ia: &[Item], ib: &[Item], entry: usize) -> Option<(Vec<u64>, Vec<u64>)> {
-    if kind.starts_with("dens_") && kind.ends_with("_no") {
+    if kind.starts_with("dens_") && (kind.ends_with("_no") || kind.ends_with("_no32")) {
         return None;
     }
     if kind.starts_with("dens_") {
@@ -166,11 +182,14 @@ fn pairs(a: &Args) {
                         if idmode.starts_with("paired") && ids.len() % 2 == 1 {
                             let mut b = ids[ids.len() - 1].to_le_bytes();
                             let top = if narrow { 4 } else { 8 };
-                            if rng.random_range(0..2) == 0 {
-                                let i = rng.random_range(0..top - 1);
-                                b.swap(i, i + 1);
-                            } else {
-                                b.swap(rng.random_range(0..top), rng.random_range(0..top));
+                            match rng.random_range(0..4) {
+                                0 | 1 => {
+                                    let i = rng.random_range(0..top - 1);
+                                    b.swap(i, i + 1);
+                                }
+                                2 => b.swap(rng.random_range(0..top), rng.random_range(0..top)),
+                                // ... or with a single byte changed (a hasher that drops a byte)
+                                _ => b[rng.random_range(0..top)] ^= rng.random_range(1..=255u8),
                             }
                             id = u64::from_le_bytes(b);
                         }
